@@ -144,3 +144,102 @@ Proof.
 Qed.
 Lemma open_trace_heights ci : forall hs o, map fst (open_trace ci o hs) = hs.
 Proof. induction hs as [|h r IH]; intro o; [reflexivity|]. cbn. now rewrite IH. Qed.
+
+(* ---------- C17 on the composed model: the hypotheses of Drive.Fds hold for every index the loader can produce ---------- *)
+Lemma hm_get_In_pair h idx rec : hm_get h idx = Some rec -> In (h, rec) idx.
+Proof.
+  induction idx as [|[k v] r IH]; [discriminate|]. cbn [hm_get]. destruct (N.eqb_spec k h) as [->|]; [intro H; inversion H; now left|]. intro H. right. now apply IH.
+Qed.
+Lemma hm_get_of_In h rec idx : NoDup (map fst idx) -> In (h, rec) idx -> hm_get h idx = Some rec.
+Proof.
+  induction idx as [|[k v] r IH]; intros Hnd Hin; [contradiction|]. cbn [map fst] in Hnd. inversion Hnd as [|? ? Hn Hr]; subst. cbn [hm_get].
+  destruct Hin as [E|Hin]; [inversion E; subst; now rewrite N.eqb_refl|].
+  destruct (N.eqb_spec k h) as [->|Hne]; [exfalso; apply Hn; apply in_map_iff; exists (h, rec); split; [reflexivity|exact Hin]|now apply IH].
+Qed.
+Lemma hm_put_keys h v m x : In x (map fst (hm_put h v m)) -> x = h \/ (In x (map fst m) /\ x <> h).
+Proof.
+  unfold hm_put. cbn [map fst]. intros [<-|Hin]; [now left|]. right. apply in_map_iff in Hin as ((k, w) & <- & Hf). apply filter_In in Hf as [Hin Hk]. cbn in *.
+  split; [apply in_map_iff; exists (k, w); split; [reflexivity|exact Hin]|]. destruct (N.eqb_spec k h); [discriminate|assumption].
+Qed.
+Lemma hm_put_nodup h v m : NoDup (map fst m) -> NoDup (map fst (hm_put h v m)).
+Proof.
+  intro H. unfold hm_put. cbn [map fst]. constructor.
+  - intro Hin. apply in_map_iff in Hin as ((k, w) & E & Hf). apply filter_In in Hf as [_ Hk]. cbn in *. subst. now rewrite N.eqb_refl in Hk.
+  - induction m as [|[k w] r IH]; [constructor|]. cbn [map fst] in H. inversion H as [|? ? Hn Hr]; subst. cbn [filter fst].
+    destruct (negb (k =? h)); [|now apply IH]. cbn [map fst]. constructor; [|now apply IH].
+    intro Hin. apply Hn. apply in_map_iff in Hin as ((k', w') & E & Hf). apply filter_In in Hf as [Hin' _]. cbn in E. subst. apply in_map_iff. exists (k, w'). split; [reflexivity|exact Hin'].
+Qed.
+Lemma load_index_nodup : forall kvs m m', NoDup (map fst m) -> load_index kvs m = Ok m' -> NoDup (map fst m').
+Proof.
+  induction kvs as [|[k v] r IH]; intros m m' Hm H; cbn [load_index] in H; [inversion H; now subst|].
+  destruct k as [|b key]; [discriminate|]. destruct (N.eq_dec b 98) as [->|Hb].
+  - destruct (decode_record key v) as [rec| | |]; try discriminate. destruct (admitted rec); [|now apply (IH m)]. apply (IH _ _ (hm_put_nodup _ _ _ Hm) H).
+  - assert (Hskip : forall A (x y:A), match b with 98 => x | _ => y end = y).
+    { intros A x y. destruct b as [|p]; [reflexivity|]. repeat (destruct p as [p|p|]; try reflexivity). exfalso; apply Hb; reflexivity. }
+    rewrite Hskip in H. now apply (IH m).
+Qed.
+
+Definition mbf_step (f:N) (acc:option N) (e:N * irec) : option N :=
+  if r_file (snd e) =? f then Some (match acc with Some a => N.max a (fst e) | None => fst e end) else acc.
+Lemma maxh_by_file_fold f idx : maxh_by_file idx f = fold_left (mbf_step f) idx None.
+Proof. reflexivity. Qed.
+Lemma mbf_ge f : forall idx acc a, acc = Some a -> exists m, fold_left (mbf_step f) idx acc = Some m /\ a <= m.
+Proof.
+  induction idx as [|e r IH]; intros acc a ->; [exists a; split; [reflexivity|lia]|]. cbn [fold_left]. unfold mbf_step at 2.
+  destruct (r_file (snd e) =? f); [|now apply IH]. destruct (IH _ (N.max a (fst e)) eq_refl) as (m & Hm & Hle). exists m. split; [exact Hm|lia].
+Qed.
+Lemma mbf_bounds_entry f : forall idx acc h rec, In (h, rec) idx -> r_file rec = f -> exists m, fold_left (mbf_step f) idx acc = Some m /\ h <= m.
+Proof.
+  induction idx as [|e r IH]; intros acc h rec Hin Hf; [contradiction|]. cbn [fold_left]. destruct Hin as [->|Hin].
+  - unfold mbf_step at 2. cbn [snd fst]. rewrite Hf, N.eqb_refl.
+    destruct (mbf_ge f r _ (match acc with Some a => N.max a h | None => h end) eq_refl) as (m & Hm & Hle). exists m. split; [exact Hm|].
+    destruct acc; lia.
+  - now apply (IH _ h rec).
+Qed.
+Lemma mbf_attained f : forall idx acc m, fold_left (mbf_step f) idx acc = Some m -> acc = Some m \/ (exists rec, In (m, rec) idx /\ r_file rec = f).
+Proof.
+  induction idx as [|[k rec] r IH]; intros acc m H; [left; exact H|]. cbn [fold_left] in H. unfold mbf_step at 2 in H. cbn [snd fst] in H.
+  destruct (N.eqb_spec (r_file rec) f) as [Hf|Hf].
+  - destruct (IH _ _ H) as [E|(rec' & Hin & Hf')].
+    + destruct acc as [a|].
+      * injection E as E'. subst m. destruct (N.max_spec a k) as [[_ Hm]|[_ Hm]]; rewrite Hm.
+        -- right. exists rec. split; [now left|exact Hf].
+        -- now left.
+      * injection E as E'. subst m. right. exists rec. split; [now left|exact Hf].
+    + right. exists rec'. split; [now right|exact Hf'].
+  - destruct (IH _ _ H) as [E|(rec' & Hin & Hf')]; [now left|right; exists rec'; split; [now right|exact Hf']].
+Qed.
+
+Section ModelFds.
+Variables (kvs:list (bytes * bytes)) (o:range) (ci:chain_index).
+Hypothesis Hci : new_index kvs o = Ok ci.
+Definition in_run (h:N) : Prop := o_start o <= h <= ci_max ci /\ hm_get h (ci_idx ci) <> None.
+
+Lemma full_nodup : NoDup (map fst (ci_full ci)).
+Proof. destruct (new_index_spec _ _ _ Hci) as (idx & Hl & _ & Hf & _). rewrite Hf. apply (load_index_nodup _ [] idx (NoDup_nil _) Hl). Qed.
+Lemma in_run_record h : in_run h -> exists rec, hm_get h (ci_idx ci) = Some rec /\ In (h, rec) (ci_full ci) /\ file_of_height ci h = r_file rec.
+Proof.
+  intros [Hr Hg]. destruct (hm_get h (ci_idx ci)) as [rec|] eqn:E; [|congruence]. exists rec. split; [reflexivity|]. split.
+  - apply hm_get_In_pair. rewrite <- (trimmed_get kvs o ci h Hci) by lia. exact E.
+  - unfold file_of_height. now rewrite E.
+Qed.
+Theorem model_maxh_ok h : in_run h -> h <= maxh_of_file ci (file_of_height ci h).
+Proof.
+  intro Hd. destruct (in_run_record h Hd) as (rec & _ & Hin & ->). unfold maxh_of_file. rewrite maxh_by_file_fold.
+  destruct (mbf_bounds_entry (r_file rec) (ci_full ci) None h rec Hin eq_refl) as (m & -> & Hle). exact Hle.
+Qed.
+Theorem model_maxh_attained h' h : in_run h' -> in_run h -> maxh_of_file ci (file_of_height ci h') = h -> file_of_height ci h = file_of_height ci h'.
+Proof.
+  intros Hd' Hd E. destruct (in_run_record h' Hd') as (rec' & _ & Hin' & Hf'). destruct (in_run_record h Hd) as (rec & Hget & Hin & Hf).
+  unfold maxh_of_file in E. rewrite maxh_by_file_fold in E.
+  destruct (mbf_bounds_entry (file_of_height ci h') (ci_full ci) None h' rec' Hin' (eq_sym Hf')) as (m & Hm & _). rewrite Hm in E. subst m.
+  destruct (mbf_attained _ _ _ _ Hm) as [X|(rec2 & Hin2 & Hf2)]; [discriminate|].
+  pose proof (hm_get_of_In h rec2 _ full_nodup Hin2) as G2. pose proof (hm_get_of_In h rec _ full_nodup Hin) as G. rewrite G in G2. inversion G2; subst. now rewrite Hf.
+Qed.
+(* C17 for the model: after delivering s..s+n-1 (all inside the run) every open file still stores a block of a later height *)
+Theorem model_open_invariant n s : (forall i, (i < n)%nat -> in_run (s + N.of_nat i)) ->
+  forall f, In f (Drive.visits (file_of_height ci) (maxh_of_file ci) [] s n) -> s + N.of_nat n <= maxh_of_file ci f.
+Proof.
+  intros Hd f Hin. destruct (Drive.open_span (file_of_height ci) (maxh_of_file ci) in_run model_maxh_ok model_maxh_attained n s f Hd Hin) as [_ H]. exact H.
+Qed.
+End ModelFds.
